@@ -190,14 +190,33 @@ def op_lines(sc):
     out.append('E ' + ('complete' if sc.get('complete', True) else 'open'))
     return out
 
-def run_scenario(binary, name, seed, wd, churn=True, timeout=150):
+_NETNS_OK = None
+
+def netns_available():
+    """can this process start a child in a private network namespace (`unshare -n`)?  Needed only to make the
+    kernel's ephemeral port range narrow for one scenario without touching the host's."""
+    global _NETNS_OK
+    if _NETNS_OK is None:
+        try:
+            _NETNS_OK = subprocess.run(['unshare', '-n', 'true'], stdout=subprocess.DEVNULL, stderr=subprocess.DEVNULL, timeout=20).returncode == 0
+        except Exception:
+            _NETNS_OK = False
+    return _NETNS_OK
+
+def run_scenario(binary, name, seed, wd, churn=True, timeout=150, flags=()):
+    """flags: what `fdaudit list` prints after the scenario's name; `netns`: run it in a private network namespace
+    (the harness then brings `lo` up and narrows the port range of that namespace; VERIF_FDA_NETNS tells it so)"""
     os.makedirs(wd, exist_ok=True)
     log = os.path.join(wd, '%s-%d.strace' % (name, seed))
     if os.path.exists(log): os.remove(log)
     cmd = ['strace', '-f', '--seccomp-bpf', '-qq', '-e', 'signal=none', '-s', '2048', '-e', 'trace=' + TRACE, '-o', log,
            binary, 'run', name, str(seed)] + ([] if churn else ['nochurn'])
+    env = dict(os.environ); env.pop('VERIF_FDA_NETNS', None)
+    if 'netns' in flags and netns_available():
+        cmd = ['unshare', '-n'] + cmd
+        env['VERIF_FDA_NETNS'] = '1'
     try:
-        p = subprocess.run(cmd, stdout=subprocess.PIPE, stderr=subprocess.STDOUT, text=True, timeout=timeout)
+        p = subprocess.run(cmd, stdout=subprocess.PIPE, stderr=subprocess.STDOUT, text=True, timeout=timeout, env=env)
         rc, out = p.returncode, p.stdout
     except subprocess.TimeoutExpired as e:
         rc, out = 124, 'timeout'
